@@ -149,10 +149,12 @@ RECIPES = {
         "level": "model_checking",
         "mc": {"quick": [("MC_Range", "MC_Range_q"), ("MC_Corrupt", "MC_Corrupt_q", 12)],
                "thorough": [("MC_Range", "MC_Range_t"), ("MC_Corrupt", "MC_Corrupt_t", 14)]},
-        "families": {"quick": [("elf", 10, 4), ("elfcorrupt", 14, 3)], "thorough": [("elf", 60, 8), ("elfcorrupt", 80, 8)]},
+        "families": {"quick": [("elf", 10, 4), ("elfcorrupt", 14, 3), ("notes", 800, 1), ("strtab", 300, 1)],
+                     "thorough": [("elf", 60, 8), ("elfcorrupt", 80, 8), ("notes", 8000, 2), ("strtab", 4000, 1)]},
         "reasons": ("value", "panic"),
         "tags": ["q:section_data", "q:segment_data", "q:section_data_as_strtab", "q:section_data_as_notes",
-                 "q:segment_data_as_notes", "q:section_data_as_rels", "q:section_data_as_relas", "q:shdrs_with_strtab"],
+                 "q:segment_data_as_notes", "q:section_data_as_rels", "q:section_data_as_relas", "q:shdrs_with_strtab",
+                 "notes", "str_get_raw", "str_get"],
         "rule": "A: minimal object + payload; caller-made section/segment headers with offset x size over {0,1,64,65,L-1,L,L+1,"
                 "2^31,2^32-1,2^63,2^64-1} x {0,1,23,24,25,L-64,L-63,L,...} x {PROGBITS,STRTAB,NOTE,NOBITS,REL} x SHF_COMPRESSED, "
                 "p_memsz != p_filesz: TLC checks 'ok => exactly the designated range inside the file, NOBITS empty, not fitting "
